@@ -62,6 +62,9 @@ func (P *Prog) lemmaObls(lm *Lemma) (obls []*Obligation) {
 	for _, rq := range lm.Requires {
 		st.assume(x.evalSpec(rq.E, env).T)
 	}
+	for _, u := range lm.Uses {
+		x.useLemma(st, env, u, lm.Props)
+	}
 	for i, en := range lm.Ensures {
 		g := x.evalSpec(en.E, env)
 		lbl := en.Label
@@ -71,4 +74,36 @@ func (P *Prog) lemmaObls(lm *Lemma) (obls []*Obligation) {
 		x.emit(st, "lemma", lbl, en.Text, g.T, lm.Props, 0, nil)
 	}
 	return x.obls
+}
+
+// useLemma applies a lemma: its requires become obligations, its ensures are assumed.
+func (x *Exec) useLemma(st *State, env *Env, u *Expr, props []string) {
+	guard := "true"
+	if u.Op == "guarded" {
+		guard = x.evalSpec(u.Args[0], env).T
+		u = u.Args[1]
+	}
+	if u.Op != "call" {
+		bail("use expects lemma(args)")
+	}
+	lm := x.P.specs.Lemmas[u.Name]
+	if lm == nil {
+		bail("use of unknown lemma %s", u.Name)
+	}
+	if len(u.Args) != len(lm.Params) {
+		bail("lemma %s: wrong number of arguments", u.Name)
+	}
+	le := &Env{st: st, vars: map[string]Val{}, pkg: lm.Pkg, old: env.old, useOld: env.useOld}
+	for i, p := range lm.Params {
+		le.vars[p.Name] = x.evalSpec(u.Args[i], env)
+	}
+	for _, rq := range lm.Requires {
+		g := x.evalSpec(rq.E, le)
+		x.emit(st, "lemma-pre", u.Name+"."+shortText(rq.Text), "precondition of lemma "+u.Name+": "+rq.Text, implies(guard, g.T), props, 0, nil)
+		st.assume(implies(guard, g.T))
+	}
+	for _, en := range lm.Ensures {
+		st.assume(implies(guard, x.evalSpec(en.E, le).T))
+	}
+	x.usedLemmas = append(x.usedLemmas, u.Name)
 }
